@@ -94,11 +94,32 @@ def check_measures(m, ref, sig, what):
     check(np.abs(I - ref["inertia"]).max() <= tolI, sig + "|inertia", f"{what}: {I.tolist()} vs {np.asarray(ref['inertia']).tolist()}")
 
 
-def check_vertices_bounds(m, ref, sig, what):
+def collinear_mask(rings):
+    """True for ring vertices that lie on the straight line through their neighbours (sine of the turn <= 1e-9):
+    a triangulator may legitimately drop them (earcut does)"""
+    out = []
+    for r in rings:
+        a, b, c = np.roll(r, 1, axis=0), r, np.roll(r, -1, axis=0)
+        u, v = b - a, c - b
+        cr = np.abs(u[:, 0] * v[:, 1] - u[:, 1] * v[:, 0])
+        out.append(cr <= 1e-9 * np.linalg.norm(u, axis=1) * np.linalg.norm(v, axis=1))
+    return np.concatenate(out)
+
+
+def check_vertices_bounds(m, ref, sig, what, optional=None):
     want = np.asarray(ref["vertices"], dtype=np.float64)
     tol = 1e-9 * (1.0 + np.abs(want).max())
-    ok, msg = O.match_point_sets(m.vertices, want, tol)
-    check(ok, sig + "|vertex_set", f"{what}: {msg}")
+    if optional is not None and optional.any():
+        from scipy.spatial import cKDTree
+
+        got = np.asarray(m.vertices, dtype=np.float64)
+        d, _ = cKDTree(want).query(got)
+        check(d.max() <= tol, sig + "|vertex_set", f"{what}: a mesh vertex is {d.max():.3g} from every expected vertex")
+        d, _ = cKDTree(got).query(want[~optional])
+        check(d.max() <= tol and len(want) - optional.sum() <= len(got) <= len(want), sig + "|vertex_set", f"{what}: an expected (non-collinear) vertex is missing")
+    else:
+        ok, msg = O.match_point_sets(m.vertices, want, tol)
+        check(ok, sig + "|vertex_set", f"{what}: {msg}")
     b = np.asarray(m.bounds, dtype=np.float64)
     wb = np.array([want.min(axis=0), want.max(axis=0)])
     check(np.abs(b - wb).max() <= tol, sig + "|bounds", f"{what}: bounds {b.tolist()} vs {wb.tolist()}")
@@ -354,9 +375,11 @@ def check_triangulation(V, F, rings, sig):
     t = V[F]
     a2 = (t[:, 1, 0] - t[:, 0, 0]) * (t[:, 2, 1] - t[:, 0, 1]) - (t[:, 1, 1] - t[:, 0, 1]) * (t[:, 2, 0] - t[:, 0, 0])
     A = O.polygon_moments(rings, [(0, 0)])[0]
-    check((a2 > 0).all() or (a2 < 0).all(), sig + "|mixed_orientation", "triangles of both orientations (or degenerate)")
+    # slivers over an (almost) collinear polygon vertex have no meaningful orientation or interior point
+    big = np.abs(a2) > 1e-9 * A
+    check((a2[big] > 0).all() or (a2[big] < 0).all(), sig + "|mixed_orientation", "triangles of both orientations")
     check(abs(np.abs(a2).sum() / 2 - A) <= 1e-9 * A, sig + "|area", f"triangle areas sum to {np.abs(a2).sum() / 2}, polygon area {A}")
-    for c in t.mean(axis=1):
+    for c in t[big].mean(axis=1):
         check(O.point_in_rings(c, rings), sig + "|triangle_outside", f"triangle centroid {c.tolist()} outside the polygon")
     pts = np.vstack(rings)
     used = V[np.unique(F)]
@@ -432,7 +455,12 @@ def b_flat(case, ctx):
             # the interior fan centre is a vertex of both caps
             c3 = np.array([[centre[0], centre[1], 0.0], [centre[0], centre[1], h]]) @ M[:3, :3].T + M[:3, 3]
             ref["vertices"] = np.vstack((ref["vertices"], c3))
-        check_vertices_bounds(m, ref, sig, kind)
+        opt = np.tile(collinear_mask(rings), 2)
+        if kind == "extrude_triangulation":
+            opt = np.concatenate((opt, [False, False]))
+        if opt.any():
+            ctx.note(cls="flat:collinear_vertex")
+        check_vertices_bounds(m, ref, sig, kind, optional=opt)
         check_measures(m, ref, sig, kind)
 
 
@@ -470,6 +498,13 @@ def b_sweep(case, ctx):
         V = np.asarray(m.vertices)
         bpts = np.vstack(rings)
         nb = len(bpts)
+        opt = collinear_mask(rings)
+        if opt.any():
+            # collinear profile vertices may be dropped by the triangulator: slices are then checked for lying in
+            # their planes and for using profile radii only
+            ctx.note(cls="sweep:collinear_vertex")
+            check(len(V) % len(pts) == 0 and nb - opt.sum() <= len(V) // len(pts) <= nb, sig + "|vertex_count", f"{len(V)} vertices for {len(pts)} slices of {nb - opt.sum()}..{nb}")
+            nb = len(V) // len(pts)
         check(len(V) == nb * len(pts), sig + "|vertex_count", f"{len(V)} vertices, expected {nb} per slice x {len(pts)} slices")
         rho = float(np.linalg.norm(bpts, axis=1).max())
         scale = rho + np.abs(path).max()
@@ -482,6 +517,9 @@ def b_sweep(case, ctx):
             # sweep_polygon stores the plane normal as spherical angles: acos near +-Z resolves angles only to sqrt(eps)=1.5e-8
             check(off <= 1e-9 * scale + 3e-8 * rho, sig + "|slice_off_plane", f"slice {i}: a vertex is {off:.3g} off the plane through the path vertex normal to the mean direction")
             r = np.sort(np.linalg.norm(S, axis=1))
+            if opt.any():
+                check(np.abs(r[:, None] - radii[None, :]).min(axis=1).max() <= 1e-9 * scale, sig + "|slice_not_congruent", f"slice {i}: a distance from the path vertex is not a profile radius")
+                continue
             check(np.abs(r - radii).max() <= 1e-9 * scale, sig + "|slice_not_congruent", f"slice {i}: distances from the path vertex differ from the profile's")
             if i in (0, len(pts) - 1, len(pts) // 2):
                 d = np.sort(np.linalg.norm(S[:, None, :] - S[None, :, :], axis=2).ravel())
@@ -620,7 +658,7 @@ def b_primitive(case, ctx):
         elif kind == "Extrusion":
             rings = G.build_rings(p["polygon"])
             ref = O.place(O.prism(rings, p["height"]), M)
-            check_vertices_bounds(m, ref, sig, "Extrusion mesh")
+            check_vertices_bounds(m, ref, sig, "Extrusion mesh", optional=np.tile(collinear_mask(rings), 2))
             check_measures(m, ref, sig, "Extrusion mesh")
             check(abs(float(P.volume) - ref["volume"]) <= 1e-9 * ref["volume"], sig + "|analytic|volume", f"{P.volume} vs {ref['volume']}")
             check(abs(float(P.area) - ref["area"]) <= 1e-9 * ref["area"], sig + "|analytic|area", f"{P.area} vs {ref['area']}")
